@@ -44,3 +44,30 @@ Theorem c10_dump_always_complete :
   let d := fold_left run_attempt hist d0 in
   dk_dump d = dk_dump d0 \/ exists a, In a hist /\ dk_dump d = Some (concat (a_writes a)).
 Proof. exact dump_always_complete. Qed.
+
+(** ---- damaged input ----
+    The loader model is a total function of the file bytes.  Without overflow checks (the
+    release profile of the server) it never takes the Panic outcome, whatever the bytes,
+    the clocks and the databases already loaded: it ends with Ok or with Err and a clean
+    partial load. *)
+Theorem c10_load_total_release :
+  forall now wall ds0 b, load_status (load_from false now wall ds0 b) <> LPanic.
+Proof. exact load_no_panic_release. Qed.
+
+(** With overflow checks (debug profile) the claim is refuted: a stream field count of 2^63
+    in the file overflows [field_count * 2] (rdb.rs:900).  Class rdb-fieldcount-overflow. *)
+Example c10_load_panic_debug_refuted :
+  let b := magic ++ version4 ++ [254; 0; 1] ++ write_string (bs "s") ++ [6] ++ write_string marker
+           ++ write_string (bs "1-1") ++ write_string (bs "9223372036854775808")
+           ++ write_string (bs "f") ++ write_string (bs "v") ++ write_string (bs "x") ++ [255; 0; 0; 0; 0; 0; 0; 0; 0] in
+  load_status (load true 0 0 b) = LPanic /\ load_status (load false 0 0 b) = LErr.
+Proof. vm_compute. split; reflexivity. Qed.
+
+(** The allocation bound [reserved <= k * |file|] is refuted for every reasonable k:
+    read_string allocates the declared length before reading (rdb.rs:1016-1021); an 18-byte
+    file makes the loader ask for 256 MiB.  Class rdb-alloc (DESIGN F-10b). *)
+Example c10_alloc_bounded_refuted :
+  let b := magic ++ version4 ++ [0; 128; 16; 0; 0; 0] ++ bs "abc" in
+  len b = 18 /\ load_status (load false 0 0 b) = LErr /\ load_resv (load false 0 0 b) = 268435456 /\
+  1000000 * len b < load_resv (load false 0 0 b).
+Proof. vm_compute. repeat split; reflexivity. Qed.
